@@ -561,7 +561,10 @@ func runFaultCase(r *kernel.Run, fl faultFlow, backend string, sw bool, faults m
 	return n, shortErr(err)
 }
 
-var faultKinds = []string{simstore.FaultErr, simstore.FaultNotFound, simstore.FaultCancel}
+// the three error kinds of the property's quantifier, plus two that deployments meet: a write that was applied although
+// the caller is told it failed (lost acknowledgement), and a crash (this and every later operation fails; the retry runs
+// after a restart over whatever became durable)
+var faultKinds = []string{simstore.FaultErr, simstore.FaultNotFound, simstore.FaultCancel, simstore.FaultLostAck, simstore.FaultCrash}
 
 func c13Configs() (out [][3]any) {
 	for fi := range faultFlows {
@@ -616,7 +619,7 @@ func propC13(r *kernel.Run) {
 	for i := 0; i < 4; i++ {
 		p1 := tp.Draw(n)
 		p2 := tp.Draw(n + 2)
-		f := map[int]string{p1: faultKinds[tp.Draw(3)], p2: faultKinds[tp.Draw(3)]}
+		f := map[int]string{p1: faultKinds[tp.Draw(len(faultKinds))], p2: faultKinds[tp.Draw(len(faultKinds))]}
 		_, e := runFaultCase(r, fl, backend, sw, f)
 		r.Count("cases", 1)
 		r.Count("ops.flow."+fl.name, 1)
